@@ -5,7 +5,7 @@ CONSTANTS
   Arrivals <- ThreeArrivals
   HashRank <- GHashRank
   FreeIds = FALSE
-  OpKinds <- StructKinds
+  OpKinds <- AllKinds
   PhaseAdds = 0
   ObsKind = "tree"
   Depth = 9
